@@ -22,6 +22,9 @@ type WorldCfg struct {
 	NumEOA     int
 	BaseFee    int64
 	KeepBlocks bool // keep every BlockResult (incl. block 1 and the deployment blocks) in C.Blocks
+	// Counter > 0 deploys a contract whose gas use depends on how often it has been called before (it counts its calls in
+	// slot 0 and loops count&7 times), and adds calls to it with this weight among the planned classes.
+	Counter int
 }
 
 // Logger is a deployed contract that emits a fixed number of logs per call.
@@ -33,14 +36,15 @@ type Logger struct {
 
 // World composes blocks whose receipt indices are non-trivial.
 type World struct {
-	C       *vh.Chain
-	R       *vh.RNG
-	Cfg     WorldCfg
-	EOAs    []*vh.Acct
-	Loggers []Logger // calls that succeed with NLogs logs (0..9)
+	C                         *vh.Chain
+	R                         *vh.RNG
+	Cfg                       WorldCfg
+	EOAs                      []*vh.Acct
+	Loggers                   []Logger // calls that succeed with NLogs logs (0..9)
 	Reverter, Burner, LogBurn common.Address
-	pending map[common.Address]uint64
-	history [][]byte // raw Ethereum txs of earlier blocks (replay class)
+	CounterAddr               common.Address
+	pending                   map[common.Address]uint64
+	history                   [][]byte // raw Ethereum txs of earlier blocks (replay class)
 	// OnBlock sees every block the world produces (deployment blocks included).
 	OnBlock func(w *World, br *vh.BlockResult, planned []string)
 }
@@ -134,6 +138,10 @@ func NewWorld(r *vh.RNG, cfg WorldCfg, onBlock func(w *World, br *vh.BlockResult
 		a.Label("l").Jump("l")
 		return a.Bytes()
 	}(), 0)
+	if cfg.Counter > 0 {
+		w.CounterAddr = deploy(vh.NewAsm().PushU(0).Op(vm.SLOAD, vm.DUP1).PushU(1).Op(vm.ADD).PushU(0).Op(vm.SSTORE).PushU(7).Op(vm.AND).
+			Label("turn").Op(vm.DUP1, vm.ISZERO).JumpI("done").PushU(1).Op(vm.SWAP1, vm.SUB).Jump("turn").Label("done").Op(vm.POP, vm.STOP).Bytes(), 0)
+	}
 	// nested: own log, call a logger (3 logs), own log  => 5 logs in call order
 	l3 := w.Loggers[3].Addr
 	w.Loggers = append(w.Loggers, Logger{Addr: deploy(func() []byte {
@@ -214,14 +222,21 @@ func (w *World) next(a common.Address) uint64 { return w.C.Nonce(a) + w.pending[
 func (w *World) Compose(n int) (txs [][]byte, planned []string) {
 	r := w.R
 	total := 0
-	for _, c := range plannedClasses {
+	classes := plannedClasses
+	if w.Cfg.Counter > 0 {
+		classes = append(append(classes[:0:0], plannedClasses...), struct {
+			name   string
+			weight int
+		}{"counter", w.Cfg.Counter})
+	}
+	for _, c := range classes {
 		total += c.weight
 	}
 	finite := w.Cfg.MaxGas > 0
 	for len(txs) < n {
 		k := r.Intn(total)
 		class := ""
-		for _, c := range plannedClasses {
+		for _, c := range classes {
 			if k < c.weight {
 				class = c.name
 				break
@@ -237,6 +252,8 @@ func (w *World) Compose(n int) (txs [][]byte, planned []string) {
 			lg := vh.Pick(r, w.Loggers)
 			raw, _ = w.signed(s, nonce, &lg.Addr, nil, lg.Gas+uint64(r.Intn(30_000)), nil, 0)
 			class = fmt.Sprintf("logs-%d", lg.NLogs)
+		case "counter":
+			raw, _ = w.signed(s, nonce, &w.CounterAddr, nil, uint64(60_000+r.Intn(20_000)), nil, 0)
 		case "plain":
 			to := vh.Pick(r, w.EOAs).Addr
 			raw, _ = w.signed(s, nonce, &to, big.NewInt(int64(r.Intn(1000))), uint64(vh.Pick(r, []int{21000, 21001, 40000})), nil, 0)
@@ -321,6 +338,33 @@ func (w *World) Compose(n int) (txs [][]byte, planned []string) {
 		txs = append(txs, raw)
 		planned = append(planned, class)
 	}
+	return txs, planned
+}
+
+// ComposeCounterBlock is a block that starts with a Cosmos transaction and has at least two calls of the counter contract
+// (by different senders) behind it, with `extra` drawn transactions in between.
+func (w *World) ComposeCounterBlock(extra int) (txs [][]byte, planned []string) {
+	r := w.R
+	who := append([]*vh.Acct(nil), w.EOAs...)
+	vh.Shuffle(r, who)
+	s0, s1, s2 := who[0], who[1], who[2]
+	seq := w.next(s0.Addr)
+	msg := banktypes.NewMsgSend(s0.Acc(), s1.Acc(), sdk.NewCoins(sdk.NewCoin(vh.Denom, sdkmath.NewInt(int64(1+r.Intn(1000))))))
+	txs = append(txs, w.C.CosmosTx(s0, []sdk.Msg{msg}, &vh.CosmosOpts{Seq: &seq, Gas: 150_000}))
+	planned = append(planned, "cosmos")
+	w.pending[s0.Addr]++
+	call := func(s *vh.Acct) {
+		raw, _ := w.signed(s, w.next(s.Addr), &w.CounterAddr, nil, uint64(60_000+r.Intn(20_000)), nil, 0)
+		w.pending[s.Addr]++
+		txs = append(txs, raw)
+		planned = append(planned, "counter")
+	}
+	call(s1)
+	if extra > 0 {
+		t2, p2 := w.Compose(extra)
+		txs, planned = append(txs, t2...), append(planned, p2...)
+	}
+	call(s2)
 	return txs, planned
 }
 
